@@ -992,8 +992,8 @@ func (r *Run) validationChain(B *OResp, before uint64) (hdr http.Header, last *O
 			continue
 		}
 		inm, ims := o.Req.Header.Get("If-None-Match"), o.Req.Header.Get("If-Modified-Since")
-		if !((et != "" && inm == et) || (et == "" && lm != "" && ims == lm)) {
-			continue
+		if (et == "" && lm == "") || inm != et || ims != lm {
+			continue // a validation request carries exactly the stored validators
 		}
 		chain = append(chain, o)
 		hop := canonHopByHop(o.Header)
